@@ -3,6 +3,7 @@ package checks
 import (
 	"bytes"
 	"fmt"
+	"strings"
 	"testing"
 	"time"
 
@@ -164,9 +165,23 @@ func init() {
 				scn.Flags{Blocks: true, Time: true, Restart: true, MaxTime: 3, MaxBlocks: 4, NoCsvJump: true},
 				mc.Bounds{MaxDepth: 9, MaxDev: 2, Budget: 100 * time.Second, NoCrash: true},
 				mc.Bounds{MaxDepth: 11, MaxDev: 3, Budget: 14 * time.Minute}, bothBack)
+			// pay-loop families: the first attempt fails (or hangs), so that the node rests in
+			// its paying state while blocks arrive and restarts happen
+			loop := advFamilies(tier, advCfg{txVariants: []string{"ok"}, annVariants: []string{"ok"}},
+				scn.Flags{Blocks: true, Time: true, Restart: true, PayPlan: true, PayKinds: []world.PayOutcome{world.PayFail, world.PayPendingErr}, MaxTime: 3, MaxBlocks: 4, NoCsvJump: true},
+				mc.Bounds{MaxDepth: 9, MaxDev: 3, Budget: 60 * time.Second, CrashAfterStore: true},
+				mc.Bounds{MaxDepth: 12, MaxDev: 4, Budget: 10 * time.Minute}, bothBack)
+			for i := range loop {
+				loop[i].Name += "/payloop"
+			}
+			fams = append(fams, loop...)
 			var out []Family
 			for _, f := range fams {
 				if f.Cfg.Chain != "lbtc" {
+					continue
+				}
+				if strings.HasSuffix(f.Name, "/payloop") {
+					out = append(out, f)
 					continue
 				}
 				base := f.Cfg.ExtraEnabled
@@ -192,6 +207,14 @@ func init() {
 				scn.Flags{Blocks: true, Time: true, Restart: true, MaxTime: 3, MaxBlocks: 4, NoCsvJump: true, BlocksAlways: true},
 				mc.Bounds{MaxDepth: 9, MaxDev: 2, Budget: 100 * time.Second, NoCrash: true},
 				mc.Bounds{MaxDepth: 11, MaxDev: 3, Budget: 14 * time.Minute}, bothBack)
+			loop := advFamilies(tier, advCfg{txVariants: []string{"ok"}, annVariants: []string{"ok"}},
+				scn.Flags{Blocks: true, Time: true, Restart: true, PayPlan: true, PayKinds: []world.PayOutcome{world.PayFail, world.PayPendingErr}, MaxTime: 3, MaxBlocks: 4, NoCsvJump: true, BlocksAlways: true},
+				mc.Bounds{MaxDepth: 9, MaxDev: 3, Budget: 60 * time.Second, CrashAfterStore: true},
+				mc.Bounds{MaxDepth: 12, MaxDev: 4, Budget: 10 * time.Minute}, bothBack)
+			for i := range loop {
+				loop[i].Name += "/payloop"
+			}
+			fams = append(fams, loop...)
 			var out []Family
 			for _, f := range fams {
 				if f.Cfg.Chain == "btc" {
